@@ -491,3 +491,17 @@ func Decode(rf *ReplayFile, v interface{}) error {
 	}
 	return nil
 }
+
+// Current records the case about to run, so that the driver can turn a
+// crash of the whole process (a panic in a goroutine casket started, a
+// fatal out-of-memory) into a replayable violation for sub-checks whose
+// configuration says a crash is a verdict.
+func Current(subName string, c interface{}) {
+	b, err := json.Marshal(c)
+	if err != nil {
+		return
+	}
+	rf := ReplayFile{Property: Property, Sub: subName, Error: "the test process crashed while running this case", Case: b}
+	out, _ := json.Marshal(&rf)
+	os.WriteFile(filepath.Join(outDir, fmt.Sprintf("current.%d.json", shard())), out, 0o644)
+}
